@@ -534,7 +534,7 @@ func (cc *Conn) prepareWriteMessage(req *pool.Message, handler HandlerFunc) (fun
 			})
 		}
 		deadline, _ := req.Context().Deadline()
-		if _, loaded := cc.midHandlerContainer.LoadOrStore(req.MessageID(), &midElement{
+		elem, loaded := cc.midHandlerContainer.LoadOrStore(req.MessageID(), &midElement{
 			handler:  handler,
 			start:    time.Now(),
 			deadline: deadline,
@@ -542,12 +542,17 @@ func (cc *Conn) prepareWriteMessage(req *pool.Message, handler HandlerFunc) (fun
 				sync.Mutex
 				msg *pool.Message
 			}{msg: msg},
-		}); loaded {
+		})
+		if loaded {
 			closeFns.Execute()
 			return nil, fmt.Errorf("cannot insert mid(%v) handler: %w", req.MessageID(), coapErrors.ErrKeyAlreadyExists)
 		}
 		closeFns = append(closeFns, func() {
-			_, _ = cc.midHandlerContainer.LoadAndDelete(req.MessageID())
+			// Remove only the entry of this message: once the housekeeping has dropped it (attempts
+			// exhausted) and the message IDs have gone round, the ID may belong to another pending message.
+			cc.midHandlerContainer.ReplaceWithFunc(req.MessageID(), func(old *midElement, ok bool) (*midElement, bool) {
+				return old, !ok || old == elem
+			})
 		})
 	case message.NonConfirmable:
 		/* TODO need to acquireOutstandingInteraction
